@@ -32,9 +32,9 @@ thread_local! {
 
 /// one `ev` line; threads and words are 0 = P (prod_idx), 1 = C (cons_idx); `op`: the operation of `thr` it belongs to
 #[derive(Clone, Copy)]
-struct Ev { thr: usize, store: bool, word: usize, val: usize, op: usize, line: usize }
+struct Ev { thr: usize, store: bool, word: usize, val: usize, op: usize, line: usize, start: bool }
 
-impl Ev { fn show(&self) -> String { format!("{} {} {} {}", NAMES[self.thr], if self.store { "st" } else { "ld" }, NAMES[self.word], self.val) } }
+impl Ev { fn show(&self) -> String { if self.start { format!("op {} {}", NAMES[self.thr], self.val) } else { format!("{} {} {} {}", NAMES[self.thr], if self.store { "st" } else { "ld" }, NAMES[self.word], self.val) } } }
 
 #[derive(Default)]
 struct Case {
@@ -43,12 +43,12 @@ struct Case {
     fin: [usize; 2], consumed: usize, race: bool,
 }
 
-struct St { cur: usize, own: [usize; 2], poison: Option<String> }
+struct St { cur: usize, own: [usize; 2], running: [bool; 2], poison: Option<String> }
 
 struct Sched {
     evs: Vec<Ev>,
     mine: [Vec<usize>; 2],                                  // per thread: the positions of its events in `evs`
-    words: [AtomicUsize; 2], last_addr: AtomicUsize,
+    words: [AtomicUsize; 2], last_addr: AtomicUsize, early: bool,
     st: Mutex<St>, cv: Condvar,
 }
 
@@ -61,10 +61,46 @@ impl Sched {
     /// a worker has run its whole program (or is unwinding)
     fn finish(&self, t: usize) {
         let mut st = self.st.lock().unwrap();
+        st.running[t] = false; self.cv.notify_all();
         if let Some(&k) = self.mine[t].get(st.own[t]) {
             let what = format!("at ev {} (line {}): {} finished its program, expected `{}`", k, self.evs[k].line, NAMES[t], self.evs[k].show());
             self.poison(&mut st, what);
         }
+    }
+}
+
+impl Sched {
+    /// ONE thread runs at a time: thread `t`, arrived at its event `k`, parks until every earlier line of the case has been performed AND
+    /// the other thread is parked at one of its own lines (or has finished) - so whatever a thread does between two of its lines (its data
+    /// accesses in particular) happens exactly in that interval of the machine execution, not merely somewhere around it
+    fn turn<'a>(&'a self, mut st: std::sync::MutexGuard<'a, St>, t: usize, k: usize) -> Option<std::sync::MutexGuard<'a, St>> {
+        st.running[t] = false; self.cv.notify_all();
+        let deadline = Instant::now() + TIMEOUT;
+        while st.cur != k || st.running[1 - t] {
+            let now = Instant::now();
+            if now >= deadline {
+                let c = self.evs[st.cur.min(self.evs.len() - 1)];
+                let what = format!("at ev {} (line {}): timeout, `{}` never came ({} waits with ev {})", st.cur, c.line, c.show(), NAMES[t], k);
+                self.poison(&mut st, what);
+            }
+            if st.poison.is_some() { return None; }
+            st = self.cv.wait_timeout(st, deadline - now).unwrap().0;
+        }
+        st.cur += 1;
+        st.own[t] += 1;
+        st.running[t] = true;
+        self.cv.notify_all();
+        Some(st)
+    }
+    /// the `op` line of a thread's next operation: the operation starts exactly there
+    fn op_start(&self, t: usize, i: usize) {
+        let st = self.st.lock().unwrap();
+        if st.poison.is_some() { return; }
+        let Some(&k) = self.mine[t].get(st.own[t]) else { return };
+        let x = self.evs[k];
+        if !x.start && self.early { return; }
+        if !x.start || x.op != i { let mut st = st; self.poison(&mut st, format!("at ev {} (line {}): {} starts operation {}, expected `{}`", k, x.line, NAMES[t], i, x.show())); return; }
+        let _ = self.turn(st, t, k);
     }
 }
 
@@ -84,7 +120,7 @@ impl Listener for Sched {
             return None;
         };
         let x = self.evs[k];
-        let ok = word == x.word && x.op == OPNO.with(|c| c.get()) && match e.kind {
+        let ok = !x.start && word == x.word && x.op == OPNO.with(|c| c.get()) && match e.kind {
             Kind::Load => !x.store && matches!(e.order, AO::Acquire | AO::SeqCst),
             Kind::Store => x.store && e.value == x.val && matches!(e.order, AO::Release | AO::SeqCst),
             _ => false,
@@ -103,20 +139,7 @@ impl Listener for Sched {
                 }
             }
         }
-        let deadline = Instant::now() + TIMEOUT;
-        while st.cur != k {
-            let now = Instant::now();
-            if now >= deadline {
-                let c = self.evs[st.cur];
-                let what = format!("at ev {} (line {}): timeout, `{}` never came ({} waits with ev {})", st.cur, c.line, c.show(), NAMES[t], k);
-                self.poison(&mut st, what);
-            }
-            if st.poison.is_some() { return None; }
-            st = self.cv.wait_timeout(st, deadline - now).unwrap().0;
-        }
-        st.cur += 1;
-        st.own[t] += 1;
-        self.cv.notify_all();
+        let Some(_st) = self.turn(st, t, k) else { return None };
         if x.store { None } else { Some(x.val) }
     }
 }
@@ -125,22 +148,23 @@ struct Fin(Arc<Sched>, usize);
 impl Drop for Fin { fn drop(&mut self) { self.0.finish(self.1); } }
 
 /// runs a thread's program; `op(n)` performs one request and says whether it was granted
-fn work(s: &Arc<Sched>, t: usize, prog: &[(usize, Option<bool>, usize)], mut op: impl FnMut(usize) -> bool) {
+fn work(s: &Arc<Sched>, t: usize, prog: &[(usize, Option<bool>, usize)], mut op: impl FnMut(usize, usize) -> bool) {
     TID.with(|c| c.set(t + 1));
     let _fin = Fin(s.clone(), t);
     for (i, &(n, exp, line)) in prog.iter().enumerate() {
         OPNO.with(|c| c.set(i));
-        let r = op(n);
+        s.op_start(t, i);
+        let r = op(n, i);
         if Some(r) != exp { s.fail(format!("op {} of {} (line {}, count {}): granted={}, expected {:?}", i, NAMES[t], line, n, r, exp)); }
     }
 }
 
 fn run(case: Case) -> Result<usize, String> {
-    let events = case.evs.len();
+    let events = case.evs.len(); let case_k = case.k;
     let mine = [0, 1].map(|t| (0..events).filter(|&k| case.evs[k].thr == t).collect::<Vec<_>>());
     let s = Arc::new(Sched {
-        evs: case.evs, mine, words: [AtomicUsize::new(0), AtomicUsize::new(0)], last_addr: AtomicUsize::new(0),
-        st: Mutex::new(St { cur: 0, own: [0, 0], poison: None }), cv: Condvar::new(),
+        evs: case.evs, mine, words: [AtomicUsize::new(0), AtomicUsize::new(0)], last_addr: AtomicUsize::new(0), early: case_k % 2 == 0,
+        st: Mutex::new(St { cur: 0, own: [0, 0], running: [true, true], poison: None }), cv: Condvar::new(),
     });
     hooks::set_listener(Some(s.clone()));
     let (mut p, mut c) = ConcurrentHeapRB::<u64>::from(vec![u64::MAX; case.len]).split();
@@ -151,10 +175,20 @@ fn run(case: Case) -> Result<usize, String> {
     let (sp, sc) = (s.clone(), s.clone());
     let hp = std::thread::spawn(move || {
         let mut next = 0u64;
-        work(&sp, 0, &prog_p, |n| {
+        let salt = case_k;
+        work(&sp, 0, &prog_p, |n, i| {
             let v: Vec<u64> = (next..next + n as u64).collect();
             PROBE.with(|c| c.set(Probe { base: slots, modulus: len, start: next as usize % len, count: n, first: next }));
-            let r = p.push_slice(&v).is_some();
+            // the machine's "request n slots, fill them, publish" is realised by every public form in turn
+            let r = match (n, (salt + i) % 4) {
+                (1, 1) => p.push(v[0]).is_ok(),
+                (1, 2) => p.push_init(v[0]).is_ok(),
+                (1, 3) => match p.get_next_item_mut_init() { Some(x) => { unsafe { x.write(v[0]); p.advance(1); } true } None => false },
+                (k, 1) if k > 1 => p.push_slice_clone(&v).is_some(),
+                (k, 2) if k > 1 => p.push_slice_init(&v).is_some(),
+                (k, 3) if k > 1 => match unsafe { p.get_next_slices_mut(k) } { Some((h, t)) => { for (d, x) in h.iter_mut().chain(t.iter_mut()).zip(v.iter()) { *d = *x; } unsafe { p.advance(k) }; true } None => false },
+                _ => p.push_slice(&v).is_some(),
+            };
             if r { next += n as u64; }
             r
         });
@@ -162,10 +196,21 @@ fn run(case: Case) -> Result<usize, String> {
     });
     let hc = std::thread::spawn(move || {
         let mut got: Vec<u64> = vec![];
-        work(&sc, 1, &prog_c, |n| {
+        let salt = case_k;
+        work(&sc, 1, &prog_c, |n, i| {
             let mut dst = vec![u64::MAX - 1; n];
-            PROBE.with(|c| c.set(Probe { base: dst.as_mut_ptr() as usize, modulus: n, start: 0, count: n, first: got.len() as u64 }));
-            let r = c.copy_slice(&mut dst).is_some();
+            let variant = (salt / 4 + i) % 5;
+            let probed = !(n == 1 && variant == 3);            // `pop` hands the value out by return: no destination to look at
+            PROBE.with(|c| c.set(Probe { base: dst.as_mut_ptr() as usize, modulus: n.max(1), start: 0, count: if probed { n } else { 0 }, first: got.len() as u64 }));
+            let r = match (n, variant) {
+                (1, 1) => c.copy_item(&mut dst[0]).is_some(),
+                (1, 2) => c.clone_item(&mut dst[0]).is_some(),
+                (1, 3) => match c.pop() { Some(x) => { dst[0] = x; true } None => false },
+                (1, 4) => match c.peek_ref() { Some(x) => { dst[0] = *x; unsafe { c.advance(1) }; true } None => false },
+                (k, 1) if k > 1 => c.clone_slice(&mut dst).is_some(),
+                (k, 2) if k > 1 => match c.peek_slice(k) { Some((h, t)) => { for (d, x) in dst.iter_mut().zip(h.iter().chain(t.iter())) { *d = *x; } unsafe { c.advance(k) }; true } None => false },
+                _ => c.copy_slice(&mut dst).is_some(),
+            };
             if r { got.extend_from_slice(&dst); }
             r
         });
@@ -195,12 +240,16 @@ fn parse(text: &str) -> Result<Vec<Case>, String> {
             match (w.as_slice(), cur.as_mut()) {
                 ([], _) => {}
                 (["case", k, len], None) => cur = Some(Case { k: num(k)?, len: num(len.strip_prefix("len=").ok_or("len= expected")?)?, ..Default::default() }),
-                (["op", t, n], Some(c)) => c.prog[thr(t)?].push((num(n)?, None, line)),
+                (["op", t, n], Some(c)) => { let t = thr(t)?; c.prog[t].push((num(n)?, None, line));
+                    // odd cases: an operation starts exactly at its `op` line; even cases: as early as the one-runner rule allows (right
+                    // after the thread's previous operation) - there, whatever an operation does before its first atomic access is done
+                    // BEFORE the other thread's intervening steps (a data read hoisted above the index load shows)
+                    if c.k % 2 == 1 { let op = c.prog[t].len() - 1; c.evs.push(Ev { thr: t, store: false, word: 2, val: num(n)?, op, line, start: true }) } }
                 (["res", t, g], Some(c)) => c.prog[thr(t)?].last_mut().ok_or("res without op")?.1 = Some(num(g)? == 1),
                 (["ev", t, k @ ("ld" | "st"), wd, v], Some(c)) => {
                     let t = thr(t)?;
                     let op = c.prog[t].len().checked_sub(1).ok_or("ev without op")?;
-                    c.evs.push(Ev { thr: t, store: *k == "st", word: thr(wd)?, val: num(v)?, op, line })
+                    c.evs.push(Ev { thr: t, store: *k == "st", word: thr(wd)?, val: num(v)?, op, line, start: false })
                 }
                 (["final", rest @ ..], Some(c)) => for kv in rest {
                     let (key, v) = kv.split_once('=').ok_or("key=value expected")?;
